@@ -24,9 +24,18 @@ func init() {
 				mods = strings.Split(f[0], ",")
 			}
 			own := map[string]bool{}
-			for _, m := range mods {
+			for i, m := range mods {
 				own[m] = true
-				ctx.AddModule(m, &context_v2.Module{FilePath: m + ".fer", Phase: phase.PhaseParsed})
+				// name conventions give the graph the shape of a real project: `b…` modules are builtin (standard library),
+				// an `e…` module is the entry module; everything else is a local module
+				typ := context_v2.ModuleLocal
+				if strings.HasPrefix(m, "b") {
+					typ = context_v2.ModuleBuiltin
+				}
+				if strings.HasPrefix(m, "e") || (i == 0 && ctx.EntryModule == "" && strings.HasPrefix(m, "E")) {
+					ctx.EntryModule = m
+				}
+				ctx.AddModule(m, &context_v2.Module{FilePath: m + ".fer", Phase: phase.PhaseParsed, Type: typ})
 			}
 			var verdicts strings.Builder
 			var order []string // importers in first-insertion order (for the adjacency dump)
